@@ -67,8 +67,21 @@ func GenTree(t *rapid.T, cfg TreeCfg) *Tree {
 		default:
 			opt.TimeDelta = int64(rapid.IntRange(1, 3).Draw(t, "dt"))
 		}
-		if fam == FamNoBIP34 && rapid.IntRange(0, 2).Draw(t, "dupcb") == 0 {
-			opt.DupCoinbase = true
+		if fam == FamNoBIP34 {
+			// duplicate-able coinbase: mostly when the earlier copy is fully
+			// spent (legal re-creation of the txid), sometimes while it is
+			// still unspent (BIP30 violation)
+			_, unspent := parent.Utxo[wire.OutPoint{Hash: tr.DupCoinbaseHash(parent.Height + 1), Index: 0}]
+			p := 5
+			if unspent {
+				p = 1
+				if invalidLeft == 0 {
+					p = 0
+				}
+			}
+			if rapid.IntRange(0, 5).Draw(t, "dupcb") < p {
+				opt.DupCoinbase = true
+			}
 		}
 		if cfg.Txs && parent.ChainValid {
 			opt.Txs = GenTxs(t, tr, parent, rapid.IntRange(0, 3).Draw(t, "ntx"))
